@@ -55,7 +55,7 @@ DESCRIPTION = {
     ],
     "required_probes": {
         "quick": ["two_defaults_in_flight", "import_time_default_differs", "env_flip_during_scoped", "history_s1_s2_none", "mechanism_env_after_import",
-                  "mechanism_scoped", "mechanism_preimport", "no_default_placeholder", "retry_after_failed_evaluation", "insertion_sweep", "dialect_zoo_compared", "foreign_thread", "env_changed_then_threads_analyse_concurrently",
+                  "mechanism_scoped", "mechanism_preimport", "no_default_placeholder", "retry_after_failed_evaluation", "earlier_analysis_crashed_inside", "insertion_sweep", "dialect_zoo_compared", "foreign_thread", "env_changed_then_threads_analyse_concurrently",
                   "second_analysis_in_the_same_block"],
         "thorough": ["two_defaults_in_flight", "import_time_default_differs", "env_flip_during_scoped", "history_s1_s2_none"],
     },
@@ -130,6 +130,25 @@ def analyse(tid: str, schema_in_text, dialect=None):
     return canon.dump(LineageRunner(render(sql, schema_in_text), dialect=d), ACC)
 
 
+class InjectedCrash(BaseException):
+    """Lands inside an analysis (BaseException: no library handler may swallow it, like KeyboardInterrupt)."""
+
+
+def analyse_raw(tid: str):
+    """The bare rendering of a template, every accessor called; the result is discarded (exceptions of the library's
+    own are the caller's business, an InjectedCrash propagates)."""
+    from sqllineage.runner import LineageRunner
+
+    try:
+        runner = LineageRunner(render(TPL[tid][2], None), dialect=TPL[tid][1])
+        runner.get_column_lineage()
+        runner.source_tables
+    except InjectedCrash:
+        raise
+    except Exception:
+        pass
+
+
 def reference(arg: dict) -> dict:
     """Clean process: the S-qualified rendering under no default; and the bare rendering under no default."""
     if os.environ.get(ENVVAR):
@@ -202,9 +221,43 @@ def run_one(spec: dict) -> dict:
             os.environ[ENVVAR] = v
         env_now[0] = v
 
+    def on_yield(t, kind, detail):
+        # crash point inside an analysis: an exception lands at the k-th traced source line (config.py / core/models.py:
+        # every Schema / Table / Column built while a statement is extracted, every configuration read) executed by this
+        # thread's "crashed_before" analysis. Never inside the configuration's own enter / exit / call (cleanup handlers).
+        k = t.ctx.get("crash_k")
+        if k is None or kind != "line" or not isinstance(detail, tuple) or detail[0] in ("__enter__", "__exit__", "__call__"):
+            return
+        n = t.ctx.get("crash_n", 0)
+        t.ctx["crash_n"] = n + 1
+        if n == k:
+            t.ctx["crash_k"] = None
+            raise InjectedCrash(f"injected at traced line {k} ({detail[0]})")
+
+    sched.on_yield = on_yield
+
+    def crashed_before(t, cb):
+        # history in this thread: an earlier analysis under another default dies part-way - anywhere inside it
+        from sqllineage.config import SQLLineageConfig as _cfg
+
+        t.ctx["crash_k"], t.ctx["crash_n"] = cb["k"], 0
+        try:
+            if cb["S0"] is None:
+                analyse_raw(cb["tpl"])
+            else:
+                with _cfg(DEFAULT_SCHEMA=cb["S0"]):
+                    analyse_raw(cb["tpl"])
+            probe("earlier_analysis_completed_before_crash_point")
+        except InjectedCrash:
+            probe("earlier_analysis_crashed_inside")
+        finally:
+            t.ctx["crash_k"] = None
+
     def step(t, st):
         tid, S, mech = st["tpl"], st["S"], st["mech"]
         sched.yield_point("op", "analyse")
+        if st.get("crashed_before") and spec.get("line") and spec.get("gran", "line") == "line":
+            crashed_before(t, st["crashed_before"])
         if "@" in tid and any(isinstance(v, dict) and "exception" in v for k_ in (f"{tid}|{S}", f"{tid}|None") for v in refs[k_].values()):
             # this dialect does not take the bare or the qualified rendering: nothing to compare
             probe("dialect_zoo_not_comparable")
@@ -550,6 +603,11 @@ def gen(seed) -> dict:
                     if gt.random() < 0.5 and not tids[0].startswith("corpus:"):
                         st["tpl"] = gt.choice(["scalar_subquery_both_ways", "scalar_subquery_q", "case_subquery", "where_subquery_both_ways", "scalar_subquery_both_ways_legacy"])
                     st["then"] = [gt.choice(tids) for _ in range(gt.choice([1, 1, 2]))]
+                gc = stream(seed, f"gen-crash-{len(threads)}-{len(prog)}")
+                if "retry_after" not in st and not tids[0].startswith("corpus:") and gc.random() < 0.2:
+                    small_ = [t for t in SMALL if t in TPL]
+                    st["crashed_before"] = {"tpl": gc.choice(small_), "S0": gc.choice([x for x in SCHEMAS if x != st["S"]] + [None]),
+                                            "k": gc.choice([0, 1, 2, 3, 5, 8, 13, 21, 34, 55, 89]) + gc.randrange(0, 8)}
                 prog.append(st)
             threads.append(prog)
         if g.random() < 0.6:
